@@ -153,6 +153,21 @@ pub fn set_memory_usage(usage: u64) {
     CURRENT_MEMORY.store(usage, Ordering::SeqCst)
 }
 
+/// Setters for the collected readings, for the verification harness.
+#[cfg(flea1lt_sentinel_rust_verif)]
+pub mod verif_setters {
+    use super::*;
+    pub fn set_system_load(load: f64) {
+        *CURRENT_LOAD.lock().unwrap() = load;
+    }
+    pub fn set_cpu_usage(usage: f32) {
+        *CURRENT_CPU.lock().unwrap() = usage;
+    }
+    pub fn set_memory_usage(usage: u64) {
+        CURRENT_MEMORY.store(usage, Ordering::SeqCst)
+    }
+}
+
 #[cfg(test)]
 mod test {
     use super::*;
